@@ -44,6 +44,13 @@ def gen_case(rng, quick, i):
     shape = [2 * th + rng.randint(2, 3) if "pml" in (bt[f"min_{a}"], bt[f"max_{a}"]) else rng.randint(3, 4) for a in "xyz"]
     mid = [s // 2 for s in shape]
     srcs = [{"kind": "dipole", "cell": mid, "pol": rng.randint(0, 2), "switch": {"fixed": sorted(rng.sample(range(T), rng.randint(1, T)))}}]
+    # several sources acting on the same field in the same step (the reverse update must un-inject every one of them)
+    lo = [th if bt[f"min_{a}"] == "pml" else 0 for a in "xyz"]
+    hi = [shape[n] - (th if bt[f"max_{a}"] == "pml" else 0) for n, a in enumerate("xyz")]
+    for mag in (False, True, True):
+        cell = [rng.randint(lo[a], hi[a] - 1) for a in range(3)]
+        srcs.append({"kind": "dipole", "cell": cell, "pol": rng.randint(0, 2), "mag": mag, "amp": rng.choice([0.5, 2.0]),
+                     "switch": rng.choice([None, {"fixed": sorted(rng.sample(range(T), rng.randint(1, T)))}])})
     if bt["min_z"] != "periodic" and shape[2] >= 2 * th + 2 and rng.random() < 0.5 and bt["min_x"] == "periodic" and bt["min_y"] == "periodic":
         srcs.append({"kind": "plane", "axis": 2, "pos": mid[2], "dir": rng.choice("+-"), "pol": [1.0, 0.5, 0.0]})
     spec = {"shape": shape, "spacing": 5e-8, "courant": "exact_half", "steps": T, "thickness": th, "bt": bt, "sources": srcs,
